@@ -44,6 +44,8 @@ func buildDistWorld(r *kernel.Rng, o distProfileOpts) (*kernel.WorldSpec, DistGe
 	spec := baseSpec(r.Fork(1), nClients, extra, o.MaxAmtExp)
 	// a few addresses that exist only as distributor sources/destinations
 	cfg := DistGenCfg{MaxSubs: r.Range(1, 6), MultiSource: r.P(0.7), ShareToMain: r.P(0.6), IDCollisions: r.P(0.5), AllowBurn: r.P(0.7), SelfAsModule: r.P(0.25), NoVRCSource: o.Faulty}
+	// a quarter of the worlds; derived from what is already drawn so that the streams of all other worlds stay as they were
+	cfg.Respell = kernel.Mix(uint64(spec.GenesisTime.UnixNano()), 9)%4 == 0
 	for i := 2; i < nClients; i++ {
 		cfg.BaseAddrs = append(cfg.BaseAddrs, kernel.ActorBech(kernel.ClientName(i)))
 	}
